@@ -129,7 +129,7 @@ def check_instantiate(case: dict, tspec: list, config: str, nstarts: int,
                       path: str = 'inplace') -> tuple[Findings, str]:
     """One instantiate call; returns (findings, observed outcome label)."""
     seed = int(case['seed'])
-    f = Findings(f'{config}-{tspec[0]}target-{path}')
+    f = Findings(f'{config.split("-")[0]}-{path}')
     circuit = build_circuit(case)
     rad = tuple(int(r) for r in circuit.radixes)
     p0 = [float(x) for x in circuit.params]
